@@ -199,10 +199,13 @@ theorem rpcTable_map (g : File → File) (hI : ∀ f, (g f).isImport = f.isImpor
 /-! ### every multi-file rule under a header-preserving rewriting -/
 
 theorem optVal_congr {f f' : File} (h : f'.langOpts = f.langOpts) (k : Nat) : optVal f' k = optVal f k := by
-  unfold optVal; rw [h]
+  unfold optVal optRaw; rw [h]
+
+theorem optRaw_congr {f f' : File} (h : f'.langOpts = f.langOpts) (k : Nat) : optRaw f' k = optRaw f k := by
+  unfold optRaw; rw [h]
 
 theorem optLoc_congr {f f' : File} (h : f'.langOpts = f.langOpts) (k : Nat) : optLoc f' k = optLoc f k := by
-  unfold optLoc; rw [optVal_congr h]
+  unfold optLoc; rw [optRaw_congr h]
 
 theorem fileDir_congr {f f' : File} (h : f'.path = f.path) : fileDir f' = fileDir f := by
   unfold fileDir; rw [h]
@@ -221,11 +224,17 @@ def optIndex : Rule → Option Nat
   | .PACKAGE_SAME_SWIFT_PREFIX => some 6
   | _ => none
 
-theorem optLoc_of_optVal {f f' : File} {k : Nat} (h : optVal f' k = optVal f k) : optLoc f' k = optLoc f k := by
+/-- value AND location of an option are functions of the raw option statement; the location is
+    NOT a function of the value (`option go_package = "";` has the value of an unset option but a
+    location of its own) -/
+theorem optVal_of_optRaw {f f' : File} {k : Nat} (h : optRaw f' k = optRaw f k) : optVal f' k = optVal f k := by
+  unfold optVal; rw [h]
+
+theorem optLoc_of_optRaw {f f' : File} {k : Nat} (h : optRaw f' k = optRaw f k) : optLoc f' k = optLoc f k := by
   unfold optLoc; rw [h]
 
 theorem globalRule_map (o : Options) (g : File → File) (k : KeepsHdr g) (w : Schema) (r : Rule)
-    (hopts : ∀ i, optIndex r = some i → ∀ f, optVal (g f) i = optVal f i)
+    (hopts : ∀ i, optIndex r = some i → ∀ f, optRaw (g f) i = optRaw f i)
     (hrpc : r = .RPC_REQUEST_RESPONSE_UNIQUE → ∀ f, fileRpcRows (g f) = fileRpcRows f) :
     globalRule o (w.map g) r = globalRule o w r := by
   cases r <;> simp only [globalRule, nonImport_map g k.isImport]
@@ -238,7 +247,8 @@ theorem globalRule_map (o : Options) (g : File → File) (k : KeepsHdr g) (w : S
     unfold rpcUnique; rw [rpcTable_map g k.isImport (hrpc rfl)]
   case STABLE_PACKAGE_NO_IMPORT_UNSTABLE => exact stableNoUnstable_map g k w
   all_goals
-    exact groupRule_map _ _ g _ _ _ k.pkg (hopts _ rfl) (fun f => optLoc_of_optVal (hopts _ rfl f)) k.path
+    exact groupRule_map _ _ g _ _ _ k.pkg (fun f => optVal_of_optRaw (hopts _ rfl f))
+      (fun f => optLoc_of_optRaw (hopts _ rfl f)) k.path
 
 theorem globalClean_map (o : Options) (g : File → File) (k : KeepsHdr g) (w : Schema) (r : Rule)
     (hopts : ∀ i, optIndex r = some i → ∀ f, optVal (g f) i = optVal f i)
@@ -391,7 +401,7 @@ theorem cleanRule_global_plant (o : Options) (w : Schema) (r : Rule) (he : elemR
 
 theorem runRule_global_plant (o : Options) (w : Schema) (r : Rule) (he : elemRule r = none)
     (fp : Str) (h : File → File) (k : KeepsHdr h)
-    (hopts : ∀ i, optIndex r = some i → ∀ f, optVal (h f) i = optVal f i)
+    (hopts : ∀ i, optIndex r = some i → ∀ f, optRaw (h f) i = optRaw f i)
     (hrpc : r = .RPC_REQUEST_RESPONSE_UNIQUE → ∀ f, fileRpcRows (h f) = fileRpcRows f) :
     runRule o (plantFile fp h w) r = runRule o w r := by
   rw [runRule_global o _ r he, runRule_global o _ r he]
